@@ -581,6 +581,9 @@ impl<'a> Repr<'a> {
                 let mut ip_packet = Ipv6Packet::new_unchecked(&mut packet);
                 header.emit(&mut ip_packet);
                 ip_packet.payload_mut().copy_from_slice(data);
+                // Zero the padding up to the next multiple of 8 octets.
+                let used = field::REDIRECTED_RESERVED.end - 2 + header.buffer_len() + data.len();
+                opt.data_mut()[used..].fill(0);
             }
             Repr::Mtu(mtu) => {
                 opt.clear_mtu_reserved();
